@@ -571,6 +571,81 @@ def check_C14(h, rng, tier):
             return (detail("C14", what, cfg, seed, base, var, [i] + later, parts, opts, diff,
                            extra={"duplicated_event": i, "duplicate": dup, "answer_ids": [i, "dup"], "original_answer": ans_o}),
                     nontrivial, stats)
+    # ---- the duplicate arrives LATER (the usual case: the client needs time to notice and reconnect).  The same
+    # small clock step is put into both histories right after the original; the re-sent command then carries a
+    # later arrival time.  A re-sent claim / open / close passes through open_mailbox() and re-stamps
+    # `mailboxes.updated` of that one mailbox (the re-sent command IS activity: DupFactsLater.v states exactly
+    # this; for close it is KF4): that one stamp is masked, everything else -- answers, every other row and
+    # stamp (the sides' `added` times included), subscriptions, later answers -- must be equal, up to the first
+    # later event that could run a sweep (whose outcome may legitimately depend on the stamp).
+    later_chosen = [elig[t][k] for k in range(per_type // 2 or 1) for t in sorted(elig) if len(elig[t]) > k]
+    for x, dup in later_chosen:
+        i = x.ev["_id"]
+        app, side = x.bound_pre[x.c]
+        dt = rng.choice([1, 3, 8, 61])
+        adv = {"k": "advance", "dt": dt, "fault": False, "_id": "later-adv"}
+        ins = [{"k": "connect", "c": c2, "_id": "dup-connect"},
+               {"k": "cmd", "c": c2, "msg": {"type": "bind", "appid": unhex(app), "side": unhex(side)}, "_id": "dup-bind"},
+               {"k": "cmd", "c": c2, "msg": dup, "_id": "dup"},
+               {"k": "disconnect", "c": c2, "_id": "dup-disconnect"}]
+        base2 = base[:i + 1] + [adv] + base[i + 1:]
+        var2 = base[:i + 1] + [adv] + ins + base[i + 1:]
+        br2 = run(cfg, base2, seed)
+        vr2 = run(cfg, var2, seed, lines=True)
+        try:
+            kf = model_kf([vr2.lines])[0]
+        except Exception:
+            stats["model-unavailable"] += 1
+            continue
+        od = vr2.by_id.get("dup")
+        oa = vr2.by_id.get("later-adv")
+        if od is None or oa is None or br2.by_id.get(i) is None:
+            stats["dup-not-run"] += 1
+            continue
+        if oa["chan"] != br.by_id[i]["chan"]:
+            stats["later:sweep-fired"] += 1      # the clock step happened to fire the timer and it deleted something
+            continue
+        si = vr2.index_of("dup")
+        trig = set(kf[si]) if si is not None and si < len(kf) else set()
+        ans_d = answer_of(od, c2, x.mtype)
+        ans_o = answer_of(br2.by_id[i], x.c, x.mtype)
+        if trig & {1, 2} or any(a[0] == "error" and a[1] == "crowded" for a in ans_d):
+            stats["skipped-known-finding"] += 1
+            continue
+        stats["dup-later:" + x.mtype] += 1
+        nontrivial += 1
+        what = None
+        diff = None
+        opts = {"drop": [c2]}
+        parts = ["frames", "exc", "chan", "subs"]
+        mbs = []
+        if x.mtype in ("open", "close") and isinstance(dup.get("mailbox"), str):
+            mbs = [H(dup["mailbox"])]
+        elif x.mtype == "claim":
+            mbs = [a[1] for a in ans_o if a[0] == "claimed" and isinstance(a[1], str)]
+        if od["exc"] is not None:
+            what = "the %s re-sent %d ticks later failed internally (%s)" % (x.mtype, dt, od["exc"])
+            diff = {"answers": {"original": ans_o, "duplicate": "exception " + od["exc"]}}
+        elif ans_d != ans_o:
+            what = "the %s re-sent %d ticks later is answered differently from the original" % (x.mtype, dt)
+            diff = {"answers": {"original": ans_o, "duplicate": ans_d}}
+        cmp_ids = ["later-adv"]
+        for ev in base[i + 1:]:
+            if ev["k"] in ("crash", "restart", "advance", "sweep", "tick"):
+                break
+            cmp_ids.append(ev["_id"])
+        if what is None:
+            opts["mask_updated"] = mbs
+            diff = diff_runs(br2, vr2, cmp_ids, parts, opts)
+            if diff is not None:
+                what = ("after %s was re-sent %d ticks later on a fresh connection of the same side, the history continues "
+                        "differently (%s at event %s) -- beyond the re-stamped `updated` of the mailbox concerned"
+                        % (x.mtype, dt, diff["part"], diff["event_id"]))
+        if what is not None:
+            return (detail("C14", what, cfg, seed, base2, var2, cmp_ids, parts, opts, diff,
+                           extra={"duplicated_event": i, "duplicate": dup, "answer_ids": [i, "dup"], "original_answer": ans_o,
+                                  "later_by_ticks": dt}),
+                    nontrivial, stats)
     return None, nontrivial, stats
 
 
